@@ -175,8 +175,11 @@ func newC01Monitor(sc *Scen, semi bool, w int) *c01Monitor {
 			a := m.att[inst]
 			// the obligation starts when the instance passes the lock re-check that follows the freeze
 			// (a deposed manager leaves here, which the statement allows)
-			need := a != nil && !a.frozenJudged && len(a.roOK) > 0 && res == "true"
-			if need {
+			// - it is the FIRST answer after the freeze that counts: a later "true" (the re-check after the procedure, when
+			// the first one had failed) does not revive the obligation
+			first := a != nil && !a.frozenJudged && len(a.roOK) > 0
+			need := first && res == "true"
+			if first {
 				a.frozenJudged = true
 			}
 			m.mu.Unlock()
